@@ -24,3 +24,10 @@ import LyModel.Props.C10Yin
 #print axioms LyModel.Props.C10Yin.yin_ext_roundtrip_fails_F36
 #print axioms LyModel.Props.C10Yin.yin_stmt_roundtrip_fails_F86
 #print axioms LyModel.Props.C10Yin.yin_stmt_roundtrip_fails_errmsg_value
+#print axioms LyModel.Props.C10Yin.yin_stmt_roundtrip
+#print axioms LyModel.Props.C10Yin.yin_stmt_roundtrip_text
+#print axioms LyModel.Props.C10Yin.printStmt_attr_child
+#print axioms LyModel.Props.C10Yin.yin_stmt_roundtrip_fails_noarg
+#print axioms LyModel.Props.C10Yin.yin_stmt_roundtrip_fails_prefixed_kw
+#print axioms LyModel.Props.C10Yin.yin_ext_roundtrip
+#print axioms LyModel.Props.C10Yin.yin_stmt_roundtrip_errmsg_value_fixed
